@@ -90,15 +90,17 @@ theorem c07_dir_final (s : State) (u : User) (pw : Pw) (h : answers s) :
 /-- **Servers × patterns: the first verdict in loop order is final.** With any number of servers in any
 state and any list of bind patterns, as soon as one pair gives verdicts the login is accepted exactly
 when the password is non-empty, the first pattern not answered with an error names the user's entry,
-and the directory holds that password; in particular a rejection under an earlier pattern is not
+the directory holds that password and the account is in a usable state; in particular a refusal for a
+disabled / locked / expired account is a rejection like any other, and a rejection under an earlier pattern is not
 overridden by a later pattern's success or error, nor by the cached hash. -/
 theorem c07_first_verdict_final (s : State) (u : User) (pw : Pw) (h : answers s) :
-    ((login s u pw).2 = true ↔ (pw ≠ 0 ∧ firstPat s = some Pat.entry ∧ s.dir u = some pw)) ∧
+    ((login s u pw).2 = true ↔
+      (pw ≠ 0 ∧ firstPat s = some Pat.entry ∧ s.dir u = some pw ∧ s.disabled u = false)) ∧
     (firstPat s ≠ some Pat.entry → (login s u pw).2 = false) := by
   rw [(c07_dir_final s u pw h).1]
   unfold dirAccepts
   constructor
-  · simp [Bool.and_eq_true, and_assoc]
+  · simp [holds, Bool.and_eq_true, and_assoc]
   · intro hne
     have : (firstPat s == some Pat.entry) = false := by simpa using hne
     rw [this]; simp
@@ -174,6 +176,7 @@ theorem c07_confirm_only_by_directory (s : State) (op : Op) (u : User) (pw : Pw)
   | setServers l => exact Or.inl h
   | setPats l => exact Or.inl h
   | changePw u' p => exact Or.inl h
+  | setAccount u' ok => exact Or.inl h
   | setAnon b => exact Or.inl h
   | advance dt => exact Or.inl h
   | setPrim p => exact Or.inl h
@@ -261,7 +264,7 @@ def Quiet (u : User) (pw : Pw) : Op → Prop
 
 theorem dirAccepts_false_of_dir {s : State} {u : User} {pw : Pw} (h : s.dir u ≠ some pw) :
     dirAccepts s u pw = false := by
-  unfold dirAccepts
+  unfold dirAccepts holds
   have : (s.dir u == some pw) = false := by simpa using h
   rw [this]; simp
 
@@ -316,6 +319,7 @@ theorem clean_step {s : State} {u : User} {pw : Pw} (hc : Clean s u pw) (hd : s.
       intro hp
       exact hq ⟨rfl, hp⟩
     · simp only [hu, if_false]; exact hd
+  | setAccount u' ok => exact ⟨hc, hd⟩
   | setAnon b => exact ⟨hc, hd⟩
   | advance dt => exact ⟨hc, hd⟩
   | setPrim p => exact ⟨hc, hd⟩
@@ -518,6 +522,46 @@ theorem c07_normalised (disable : Bool) (lower : List Char → List Char) (filte
   refine ⟨by unfold appLogin; rw [h], rfl, fun hl => ?_⟩
   unfold reprocess
   cases disable <;> simp [hl]
+
+/-! ### a refusal is a verdict whatever the directory writes next to it (seeded variant, round 3) -/
+
+/-- **An unusable account is rejected while a server answers, and its cached hash is evicted**: the
+account is disabled / locked out / expired in the directory, the password is the right one and its hash
+is cached — the login is rejected and (primary writable) the hash is gone from the primary, so the
+next outage does not bring the account back. -/
+theorem c07_unusable_account_rejected (s : State) (u : User) (pw : Pw) (h : answers s)
+    (hdis : s.disabled u = true) :
+    (login s u pw).2 = false ∧
+    (getSigned s u = .found pw → writable s = true → (login s u pw).1.primary u = none) := by
+  have hd : dirAccepts s u pw = false := by simp [dirAccepts, holds, hdis]
+  exact ⟨by rw [(c07_dir_final s u pw h).1, hd], (c07_evict_partial s u pw h hd).1⟩
+
+/-- the reviewer's seeded variant: a refusal that carries an Active-Directory account-state sub-code
+is reported as an error (fall through) instead of a rejection -/
+def checkServerAcctStateIsError (s : State) (st : Srv) (p : Pat) (u : User) (pw : Pw) : Option Bool :=
+  if pw = 0 then some false
+  else match st, p with
+    | .up, .entry => if s.disabled u && s.dir u == some pw then none else some (holds s u pw)
+    | st, p => checkServer s st p u pw
+
+def acctStateIsError : Variant :=
+  { lp := fun s u pw => loopWith (fun st => loopWith (fun p => checkServerAcctStateIsError s st p u pw) s.pats) s.srv,
+    get := getSigned, sync := sync }
+
+def disabledAfterLogin : List Op :=
+  [.setServers [.up, .up], .setPats [.entry], .changePw 0 (some 1), .login 0 1, .sync, .setAccount 0 false]
+
+/-- with that variant the disabled account logs in from the cache while the directory is up, and keeps
+doing so when it is down; the code's rule rejects, evicts, and the outage changes nothing -/
+theorem c07_account_state_is_error_counterexample :
+    lastLogin acctStateIsError disabledAfterLogin 0 1 = some true ∧
+    lastLogin acctStateIsError (disabledAfterLogin ++ [.login 0 1, .sync, .setServers [.down, .down]]) 0 1 = some true ∧
+    lastLogin repaired disabledAfterLogin 0 1 = some false ∧
+    lastLogin repaired (disabledAfterLogin ++ [.login 0 1, .sync, .setServers [.down, .down]]) 0 1 = some false := by
+  decide
+
+/-- the literals the judge uses are the source's: 96 hours, record type 1 -/
+theorem c07_judge_spec : cacheDur = 96 * 3600 ∧ pwType = 1 := by decide
 
 /-! ### the name as typed must not reach the backend (seeded variant, round 2) -/
 
